@@ -7,6 +7,7 @@
 From Coq Require Import ZArith List Bool.
 Import ListNotations.
 From SqfVerif Require Import PP.Spec PP.Tracker PP.ReaderProofs PP.SyncProofs PP.TrackerProofs PP.LineSync PP.TopProofs.
+From SqfVerif Require Import PP.FramePos PP.FramePosProofs.
 Local Open Scope Z_scope.
 
 (* Reader: every raw newline is accounted for exactly once - as a newline character or as a hidden
@@ -120,6 +121,29 @@ Theorem C14_line_file_macros : forall file eof dfuel st w t rest c cs L d,
 Proof. exact line_file_macros. Qed.
 Print Assumptions C14_line_file_macros.
 
+(* ---- runtime side: the instruction a frame names (PP/FramePos.v mirrors frame::next and frame::diag_info_from_position,
+   frame.h:187-201,256-260; tied to the C++ by the 'framepos' run of checks/C14.py).  A runtime diagnostic that is not raised by an
+   instruction itself, and every stack-trace entry, takes its location from a frame: *)
+(* while it runs, a frame names the instruction it is executing: after k+1 steps instruction k *)
+Theorem C14_frame_names_executing_instruction : forall len k,
+  (k < len)%nat -> fdiag len (fafter len (S k)) = DIndex k.
+Proof. exact names_executing. Qed.
+Print Assumptions C14_frame_names_executing_instruction.
+
+(* once its block has run to the end (however often it is stepped again), a frame names the block's LAST instruction: this is the
+   location of the diagnostics an exit behaviour raises about the value the block left (while / waitUntil / count / select / findIf / ...) *)
+Theorem C14_finished_frame_names_last_instruction : forall len m,
+  (0 < len)%nat -> (len < m)%nat -> fdiag len (fafter len m) = DIndex (len - 1).
+Proof. exact names_last_when_finished. Qed.
+Print Assumptions C14_finished_frame_names_last_instruction.
+
+(* whatever the number of steps: the unchecked dereference of diag_info_from_position is never reached, and what is named is an
+   instruction of the frame's own set (a frame without instructions names nothing) *)
+Theorem C14_frame_location_is_an_instruction : forall len m,
+  fdiag len (fafter len m) <> DUB /\ (forall i, fdiag len (fafter len m) = DIndex i -> (i < len)%nat).
+Proof. exact never_ub. Qed.
+Print Assumptions C14_frame_location_is_an_instruction.
+
 (* ---- non-vacuity ---- *)
 (*  /* c NL c */ NL #ifdef Q NL junk NL #endif NL #include "/v/i" NL x   with i = a NL b NL  *)
 Definition ex_main : list Z :=
@@ -136,3 +160,9 @@ Proof.
   eexists. eexists. split; [vm_compute; reflexivity|]. split; [vm_compute; reflexivity|].
   exists 14%nat. eexists. split; [vm_compute; reflexivity|]. split; vm_compute; reflexivity.
 Qed.
+
+(* a block of three instructions: standing on the second one, and behind the last one *)
+Example ex_frame_running : fdiag 3 (fafter 3 2) = DIndex 1.
+Proof. reflexivity. Qed.
+Example ex_frame_finished : fdiag 3 (fafter 3 4) = DIndex 2 /\ fdiag 3 (fafter 3 9) = DIndex 2.
+Proof. split; reflexivity. Qed.
